@@ -7,7 +7,9 @@ TC=$(ls -d "${GOMODCACHE:-/root/go/pkg/mod}"/golang.org/toolchain@v0.0.1-go1.25.
 if [ -n "$TC" ] && [ -x "$TC/go" ]; then
 	# use the cached toolchain directly: independent of GOTOOLCHAIN/GOSUMDB in the environment
 	PATH="$TC:$PATH" GOTOOLCHAIN=local go build -o bin/rlint ./cmd/rlint
+	PATH="$TC:$PATH" GOTOOLCHAIN=local go build -o bin/rmut ./cmd/rmut
 else
 	go build -o bin/rlint ./cmd/rlint
+	go build -o bin/rmut ./cmd/rmut
 fi
 echo "built bin/rlint"
